@@ -195,7 +195,9 @@ class Judge:
         if bad:
             out.append(dict(prop=["C19"], oracle="zero_column",
                             sig=_family_sig(self.s) + ("zero_column_nonzero_coef",),
-                            detail=dict(units=bad[:5]), feat=self.feat(res)))
+                            detail=dict(units=bad[:5]),
+                            feat=self.feat(res, dict(criterion=criterion_of(self.s.solver_name,
+                                                                             res["knobs"])))))
         return out
 
     def _certificate(self, pr, res, w, b, tol, crit, ctx):
